@@ -296,3 +296,49 @@ func H_C12_regoverflow() {
 	}
 	VReach("end")
 }
+
+// C12.growparams — a function entered through a protected call with fewer arguments than parameters, at every
+// register height around the point where the registry has to grow for the callee's frame: the missing
+// parameters are nil, whatever the registry configuration.
+//
+//verif:harness prop=C12 tier=quick qparams=lo:40,hi:75 tparams=lo:20,hi:130 bounds="callee with 3 parameters and 60 locals called as pcall(f, x) / through __index / through L.PCall from a vararg trampoline holding n extra values, n symbolic in [40,75] (quick) / [20,130] (thorough); registry fixed 1024 or growable 128..256 by 32 (the frame crosses the capacity inside the window)" maxpaths=4000 tmaxpaths=8000
+func H_C12_growparams() {
+	opt := Options{RegistrySize: 1024}
+	if VChoice(2) == 1 {
+		opt = Options{RegistrySize: 128, RegistryMaxSize: 256, RegistryGrowStep: 32}
+	}
+	opt.SkipOpenLibs = true
+	opt.CallStackSize = 32
+	L := NewState(opt)
+	L.Push(L.NewFunction(OpenBase))
+	L.Call(0, 0)
+	T := L.NewTable()
+	for i := 1; i <= 140; i++ {
+		T.RawSetInt(i, LNumber(i))
+	}
+	L.G.Global.RawSetString("T", T)
+	x := VFloat("x")
+	L.G.Global.RawSetString("x", LNumber(x))
+	n := int(VByte("n"))
+	VAssume(VAnd(n >= VParam("lo", 40), n <= VParam("hi", 75)))
+	L.G.Global.RawSetString("n", LNumber(n))
+	locals := "local v1"
+	for i := 2; i <= 60; i++ {
+		locals += ", v" + itoa(i)
+	}
+	via := VChoice(2)
+	src := "local function test(a, b, c) " + locals + " = 1; return a, b, c end; "
+	if via == 0 {
+		src += "local function tramp(...) return pcall(test, x) end; return tramp(unpack(T, 1, n))"
+	} else {
+		src += "local o = setmetatable({}, {__index = function(t, k) local a, b, c = test(k); return b == nil and c == nil and a end}); local function tramp(...) return true, o[x], nil, nil end; return tramp(unpack(T, 1, n))"
+	}
+	err := loadRun(L, src, 4)
+	VAssert(err == nil, "growparams: runs")
+	if err == nil {
+		VAssert(L.Get(1) == LTrue, "growparams: the protected call succeeds (the frame fits the maximum size)")
+		VAssert(sameValue(L.Get(2), LNumber(x)), "growparams: the argument that was passed arrives")
+		VAssert(L.Get(3) == LNil && L.Get(4) == LNil, "growparams: the missing parameters are nil")
+	}
+	VReach("end")
+}
